@@ -228,6 +228,7 @@ func init() {
 			"every ordered pair split over two interfaces where either interface carries all six interface-level notations, every ordered triple in thorough; " +
 			"(a) inheritance: interface-level x method-level settings of the six inheritable notations in {unset, non-default, explicit default}: complete product (3^6)^2 = 531441 settings in thorough (729 files x 729 methods), " +
 			"every pair of notations jointly with the others unset in quick; oracle O-diff: the text of each generated function equals the text generated for the same method alone with its effective settings written at method level; " +
+			"(c) neighbour independence over the complete F1 type matrix and F3 struct-shape alphabets: each cell's method generated alone and as one of 8 methods of a shared file in two arrangements (consecutive cells in one interface; a strided partition of the alphabet in reverse order over two interfaces), function text must be identical; " +
 			"non-trivial = setting where interface-level and method-level values differ or only the interface level is set / method generated next to other methods")
 		var mu sync.Mutex
 		fail := func(key, id, what string, files map[string]string, exp, obs string) {
@@ -492,6 +493,8 @@ func init() {
 			}
 			e.Rep.Outcome("inheritance")
 		})
+		// ---- (c) every F1 / F3 cell alone vs among seven neighbours
+		e.c09Batch(base, th, fail)
 		e.Rep.Sample(map[string]any{"half": "inheritance", "interface_level": c09Notes(groups[order[len(order)/2]][0][:6]), "methods_in_file": len(groups[order[len(order)/2]])})
 	})
 }
